@@ -250,6 +250,28 @@ def g_ctxdec(spec, r):
         yield "ctxdec", lead + pre + body + extra + post + r.choice([b"", b" tail"]), None
 
 
+def g_plainnest(spec, r):
+    """Nested plain indicators only: by construction nothing in these inputs is encoded, escaped, normalised or listed
+    as a keyword in another letter case, so flattening the scan must give back the input."""
+    while True:
+        k = r.randint(1, 5)
+        core = r.choice([netgen.email(r), b"see " + netgen.domain(r) + b" ok", netgen.posix_path(r), b"ping " + netgen.ipv4(r) + b" -n 3",
+                         b"ping " + netgen.domain(r) + b"; ping " + netgen.ipv4(r), netgen.exe_name(r).lower()])
+        for _ in range(k):
+            w = r.randrange(5)
+            if w == 0:
+                core = b"x( " + core + b" )"
+            elif w == 1:
+                core = b"x 'powershell -c " + core + b"'"
+            elif w == 2:
+                core = b"(cmd /c " + core + b")"
+            elif w == 3:
+                core = b'"cmd /c powershell -c ' + core + b'; ping ' + netgen.ipv4(r) + b' -n 3" tail'
+            else:
+                core = b"zz " + core + b" " + netgen.domain(r)
+        yield "plainnest", r.choice([b"", b"x ", b"lorem ipsum "]) + core, None
+
+
 def g_nest(spec, r):
     """k properly nested raw indicators at positive offsets (contexts inside contexts)."""
     while True:
@@ -342,7 +364,7 @@ def g_expand(spec, r):
 
 GENERATORS = {
     "skel": g_skel, "xor": g_xor, "cmd": g_cmd, "pe": g_pe, "xorbytes": g_xorbytes, "matryoshka": g_matryoshka,
-    "nesting": g_nesting, "seedmut": g_seedmut, "soup": g_soup, "large": g_large, "repeat": g_repeat, "url": g_url, "ioc": g_ioc, "layer": g_layer, "ctxdec": g_ctxdec, "nest": g_nest, "repeatunit": g_repeatunit, "echo": g_echo, "expand": g_expand,
+    "nesting": g_nesting, "seedmut": g_seedmut, "soup": g_soup, "large": g_large, "repeat": g_repeat, "url": g_url, "ioc": g_ioc, "layer": g_layer, "ctxdec": g_ctxdec, "nest": g_nest, "plainnest": g_plainnest, "repeatunit": g_repeatunit, "echo": g_echo, "expand": g_expand,
 }
 
 
